@@ -201,6 +201,8 @@ class Emitter:
         if fl.cxx and k in ("open", "newin", "restart"):
             o.append('%svf_X(%s, "%s %d");' % (ind, C, k, op[1]))
             o.append("%s%s->cur_src = %d;" % (ind, C, op[1]))
+            if self.o.get("cxx_stream") and k == "open" and not in_yylex:
+                o.append("%slexer->vf_stream(%s->src[%d].d, %s->src[%d].n);" % (ind, C, op[1], C, op[1]))
             if k == "restart":
                 o.append("%s%syyrestart(std::cin);" % (ind, "" if in_yylex else "lexer->"))
             return o
@@ -559,17 +561,25 @@ class Emitter:
     def cxx_class(self):
         """Subclass of yyFlexLexer: input, output, errors and yywrap go to the harness."""
         case = self.case
-        L = ["#include <new>", "class VfLexer : public yyFlexLexer {", "public:",
+        L = ["#include <new>", "#include <sstream>", "#include <string>",
+             "class VfLexer : public yyFlexLexer {", "public:",
              "\tVfLexer() : yyFlexLexer() {}",
              "\tVfLexer(std::istream &i, std::ostream &o) : yyFlexLexer(i, o) {}",
              # an object may be built in any storage: what a constructor leaves unset shows up
              "\tstatic VfLexer *vf_make(int how) { void *m = ::operator new(sizeof(VfLexer)); "
              "memset(m, 0xA5, sizeof(VfLexer)); "
              "if (how & 1) return new (m) VfLexer(std::cin, std::cout); return new (m) VfLexer(); }",
-             "\tvirtual int yylex();",
-             "\tvirtual int LexerInput(char *buf, int max_size) { int r = vf_read_idx(%s, "
-             "%s->cur_src, buf, (size_t) max_size); if (r < 0) LexerError(\"input in flex "
-             "scanner failed\"); return r; }" % (C, C),
+             "\tvirtual int yylex();"]
+        if not self.o.get("cxx_stream"):
+            L.append("\tvirtual int LexerInput(char *buf, int max_size) { int r = vf_read_idx(%s, "
+                     "%s->cur_src, buf, (size_t) max_size); if (r < 0) LexerError(\"input in flex "
+                     "scanner failed\"); return r; }" % (C, C))
+        else:
+            # the class's own LexerInput() reads from a std::istream holding the source
+            L.append("\tstd::istringstream vf_is;")
+            L.append("\tvoid vf_stream(const unsigned char *d, size_t n) { vf_is.clear(); "
+                     "vf_is.str(std::string((const char *) d, n)); switch_streams(&vf_is, 0); }")
+        L += [
              "\tvirtual void LexerOutput(const char *buf, int size) { vf_D(%s, buf, "
              "(size_t) size); }" % C,
              "\tvirtual void LexerError(const char *msg) { vf_fatal(%s, msg); }" % C,
